@@ -3125,7 +3125,82 @@ def gen_pydhook(lib_dir: str, header: str) -> str:
     out += "import DltypeModel.Check\nset_option linter.unusedVariables false\nnamespace Dltype.Gen\nopen Dltype\n\n" + PYDHOOK_HEADER
     out += ("/-- `TensorTypeBase.__get_pydantic_core_schema__` after the validator is defined. `isNdarray` = the (unwrapped) base type is a numpy array\n"
             "    type, `declared` = the scalar types it declares (`_resolve_numpy_dtype`), `hasDtypes` / `member` = the class's `DTYPES` -/\n")
-    out += "def schemaHook (numpyAvailable isNdarray hasDtypes : Bool) (member : DT → Bool) (declared : List DT) : SchemaOutcome :=\n  " + body + "\n\nend Dltype.Gen\n"
+    out += "def schemaHook (numpyAvailable isNdarray hasDtypes : Bool) (member : DT → Bool) (declared : List DT) : SchemaOutcome :=\n  " + body + "\n\n"
+    out += _gen_numpy_dtype(mod)
+    out += "end Dltype.Gen\n"
+    return out
+
+
+NPDTYPE_HEADER = """/-- a `typing` object as `_resolve_numpy_dtype` sees it: a scalar type (no arguments) or a subscripted generic / a union (its
+    `typing.get_args`) -/
+inductive TObj
+  | leaf (d : DT)
+  | node (args : List TObj)
+
+/-- `typing.get_args(x)` -/
+def TObj.getArgs : TObj → List TObj
+  | .leaf _ => []
+  | .node as => as
+
+/-- `a or b` over sequences: the first when it is non-empty -/
+def orSeq {α} (a b : List α) : List α := if a.isEmpty then b else a
+
+"""
+
+
+def _gen_numpy_dtype(mod) -> str:
+    """`_resolve_numpy_dtype`: the index taken from the array type's arguments, the arguments of that, and the flattening comprehension"""
+    f = next((n for n in mod.body if isinstance(n, ast.FunctionDef) and n.name == "_resolve_numpy_dtype"), None)
+    if f is None or [a.arg for a in f.args.args] != ["np_array_t"]:
+        raise TErr("_resolve_numpy_dtype: not found / parameters")
+    body = _strip(f.body)
+    known = {"np_array_t": "np_array_t"}
+
+    def obj(e) -> str:
+        """an expression denoting one typing object or a sequence of them"""
+        if isinstance(e, ast.Name) and e.id in known:
+            return e.id
+        if isinstance(e, ast.Call) and _src(e.func) == "typing.get_args" and len(e.args) == 1 and not e.keywords:
+            return f"{obj(e.args[0])}.getArgs"
+        if isinstance(e, ast.Call) and _src(e.func) == "typing.cast" and len(e.args) == 2:
+            return obj(e.args[1])
+        if isinstance(e, ast.BoolOp) and isinstance(e.op, ast.Or) and len(e.values) == 2:
+            return f"(orSeq {obj(e.values[0])} {obj(e.values[1])})"
+        if isinstance(e, ast.List):
+            return "[" + ", ".join(obj(x) for x in e.elts) + "]"
+        raise TErr(f"_resolve_numpy_dtype: expression `{_src(e)[:120]}`")
+
+    lines = []
+    for s in body[:-1]:
+        if not (isinstance(s, ast.Assign) and len(s.targets) == 1 and isinstance(s.targets[0], ast.Name)):
+            raise TErr(f"_resolve_numpy_dtype: statement `{_src(s)[:120]}`")
+        name = s.targets[0].id
+        v = s.value
+        if isinstance(v, ast.Subscript) and isinstance(v.slice, ast.Constant) and isinstance(v.slice.value, int) and v.slice.value >= 0:
+            lines.append(f"match {obj(v.value)}[{v.slice.value}]? with\n  | none => none   -- IndexError\n  | some {name} =>")
+        else:
+            lines.append(f"let {name} := {obj(v)}")
+        known[name] = name
+    r = body[-1]
+    if not (isinstance(r, ast.Return) and isinstance(r.value, ast.ListComp)):
+        raise TErr("_resolve_numpy_dtype: the last statement is not `return [ … ]`")
+    comp = r.value
+    if any(g.ifs or g.is_async or not isinstance(g.target, ast.Name) for g in comp.generators) or not 1 <= len(comp.generators) <= 2:
+        raise TErr(f"_resolve_numpy_dtype: comprehension `{_src(comp)[:160]}`")
+    g0 = comp.generators[0]
+    it0 = obj(g0.iter)
+    known[g0.target.id] = g0.target.id
+    if len(comp.generators) == 2:
+        g1 = comp.generators[1]
+        it1 = obj(g1.iter)
+        known[g1.target.id] = g1.target.id
+        lines.append(f"some ({it0}.flatMap (fun {g0.target.id} => ({it1}).map (fun {g1.target.id} => {obj(comp.elt)})))")
+    else:
+        lines.append(f"some ({it0}.map (fun {g0.target.id} => {obj(comp.elt)}))")
+    out = NPDTYPE_HEADER
+    out += ("/-- `_resolve_numpy_dtype(np_array_t)`: the scalar types a numpy array type declares, unions flattened (`none` = IndexError: the type\n"
+            "    has fewer arguments than the index read) -/\n")
+    out += "def resolveNumpyDtype (np_array_t : TObj) : Option (List TObj) :=\n" + "".join("  " + l + "\n" for l in lines) + "\n"
     return out
 
 
